@@ -1184,6 +1184,18 @@ void _GD_FlushMeta(DIRFILE* D, int fragment, int force)
 
   dtrace("%p, %i, %i", D, fragment, force);
 
+  /* Metadata changed after gd_dirfile_standards() may no longer conform to the
+   * current Standards Version: never declare a version the parser would reject,
+   * move to the latest conforming one instead */
+  if (~D->flags & GD_HAVE_VERSION)
+    _GD_FindVersion(D);
+  if (D->av && (~D->av & (1ULL << D->standards))) {
+    int v = GD_DIRFILE_STANDARDS_VERSION;
+    while (~D->av & (1ULL << v))
+      v--;
+    D->standards = v;
+  }
+
   if (fragment == GD_ALL_FRAGMENTS) {
     /* An included fragment whose byte sex, encoding, frame offset or protection
      * differs from its parent's must state them itself: when the parent is
